@@ -269,6 +269,40 @@ def F57():
         return True
     return not np.allclose(m.values[:, 1], np.log([1.0, 2, 3]))
 
+def F58():
+    d = pd.DataFrame({"A": pd.Series(["b", "a", "c"], dtype="string[python]"), "x": [1.0, 2, 3]})
+    return model_matrix("A + x", d, output="numpy", context={}).dtype.kind not in "fiub"
+def F59():
+    return exc(lambda: model_matrix("a", {"a": [1.0, 2.0, 3.0]}, context={})) is not None
+def F60():
+    s = ModelSpec(formula="a - 1", encoder_state={"a": ("categorical", {"categories": ["x", "y"]})})
+    return exc(lambda: s.get_model_matrix(pd.DataFrame({"a": list("xy")}))) is not None
+def F61():
+    return exc(lambda: Formula('f("\ud800")')) not in (None, "FormulaSyntaxError", "FormulaParsingError", "SyntaxError")
+
+def F62():
+    d = pd.DataFrame({"y": [1.0, 2, 3, 4], "a.b": [1.0, 3, 2, 5]})
+    return "a.b" not in model_matrix("y ~ log(`a.b`)", d, context={}).model_spec.required_variables
+
+def F63():
+    import subprocess
+    code = ("import sys; sys.path.insert(0, %r); from formulaic import Formula; "
+            "print(Formula({'alpha', 'beta', 'gamma', 'delta', 'eps', 'zeta'}))") % os.environ.get("REPO", "/repo")
+    outs = {subprocess.run([sys.executable, "-c", code], env=dict(os.environ, PYTHONHASHSEED=str(h)), capture_output=True, text=True).stdout for h in range(6)}
+    return len(outs) != 1
+def F64():
+    import copy
+    from formulaic.parser.types import Term, Factor
+    T = lambda s: Term([Factor(c) for c in s.split(":")])
+    f = Formula([T("a"), T("b:c")]); g = copy.copy(f)
+    g.insert(0, T("x:y:z"))
+    return [t.degree for t in f] != sorted(t.degree for t in f) or len(f) != 2
+
+def F65():
+    d = pd.DataFrame({"log.income": [1.0, 2, 3], "x": [1.0, 2, 4]})
+    return ("log.income" not in Formula("x ~ I(`log.income` * 2)").required_variables
+            or "log.income" in list(model_matrix("log(`log.income`) ~ .", d, context={}).rhs.columns))
+
 ids = sys.argv[1:] or [f"F{i}" for i in range(1, 26)]
 for i in ids:
     try:
